@@ -248,14 +248,5 @@ func H_C21_clnSendReceive_NoPanic() {
 	zzverif.Assert(bytes.Equal(g.data, message), "C21.cln_roundtrip_payload")
 }
 
-// H_C21_T_clnShortPayload_NoPanic: the custommsg hook with a payload shorter than 4 characters.
-// This is OUTSIDE the lightningd contract stated at the top (a lightning message always carries
-// its 2-byte type); the entry records what the code does if that contract is broken.
-func H_C21_T_clnShortPayload_NoPanic() {
-	cl, _ := vmClient()
-	first, second := vmHandlers(cl, 0)
-	payload := zzverif.Str("payload")
-	zzverif.Assume(len(payload) < 4)
-	res, err := cl.OnCustomMsg(&glightning.CustomMsgReceivedEvent{PeerId: "peer", Payload: payload})
-	zzverif.Assert(err == nil && res != nil && len(*first) == 0 && len(*second) == 0, "C21.cln_short_payload_ignored")
-}
+// (H_C21_T_clnShortPayload_NoPanic removed: it exercised input outside the callers' contract and therefore demanded more
+// than the property states; see DESIGN.md "false alarms".)
